@@ -158,9 +158,18 @@ pub fn unit_exps(_u: Unit) -> (i8, i8) {
 pub trait ToVal {
     fn to_val(&self) -> Val;
 }
+/// f32 bit pattern with every NaN collapsed to one canonical pattern (which NaN an
+/// operation returns is not specified by the language).
+pub fn fbits(x: f32) -> u32 {
+    if x.is_nan() {
+        0x7fc0_0000
+    } else {
+        x.to_bits()
+    }
+}
 impl ToVal for f32 {
     fn to_val(&self) -> Val {
-        Val::F(self.to_bits())
+        Val::F(fbits(*self))
     }
 }
 impl ToVal for bool {
@@ -171,21 +180,17 @@ impl ToVal for bool {
 impl ToVal for Quantity {
     fn to_val(&self) -> Val {
         let (m, s) = unit_exps(self.unit);
-        Val::Q(self.value.to_bits(), m, s)
+        Val::Q(fbits(self.value), m, s)
     }
 }
 pub fn state_bits(s: &State) -> [u32; 3] {
-    [
-        s.position.to_bits(),
-        s.velocity.to_bits(),
-        s.acceleration.to_bits(),
-    ]
+    [fbits(s.position), fbits(s.velocity), fbits(s.acceleration)]
 }
 pub fn cmd_bits(c: &Command) -> (u8, u32) {
     match c {
-        Command::Position(x) => (0, x.to_bits()),
-        Command::Velocity(x) => (1, x.to_bits()),
-        Command::Acceleration(x) => (2, x.to_bits()),
+        Command::Position(x) => (0, fbits(*x)),
+        Command::Velocity(x) => (1, fbits(*x)),
+        Command::Acceleration(x) => (2, fbits(*x)),
     }
 }
 pub fn cmd_from(kind: u8, bits: u32) -> Command {
